@@ -84,6 +84,21 @@ def flatten(t: T, ops: Tuple[str, ...], bool_op: str) -> List[T]:
         for x in t.args[1]:
             out += flatten(x, ops, bool_op)
         return out
+    # any / logical_or.reduce (all / logical_and.reduce) over a literal collection of scalar conditions:
+    # jnp.any(jnp.stack([a, b, c])), jnp.logical_or.reduce(jnp.array([a, b, c])), any([a, b, c])
+    n = ext_name(t)
+    red = {"or": ("jax.numpy.any", "numpy.any", "builtins.any", "jax.numpy.logical_or.reduce", "numpy.logical_or.reduce"),
+           "and": ("jax.numpy.all", "numpy.all", "builtins.all", "jax.numpy.logical_and.reduce", "numpy.logical_and.reduce")}[bool_op]
+    if n in red and len(t.args[1]) == 1 and not t.args[2]:
+        inner = t.args[1][0]
+        while ext_name(inner) in ("jax.numpy.stack", "jax.numpy.array", "jax.numpy.asarray", "numpy.array", "numpy.stack", "jax.numpy.hstack") \
+                and len(inner.args[1]) >= 1:
+            inner = inner.args[1][0]
+        if inner.kind in ("list", "tuple") and inner.args[0] and not any(x.kind == "star" for x in inner.args[0]):
+            out = []
+            for x in inner.args[0]:
+                out += flatten(x, ops, bool_op)
+            return out
     # jnp.any over a single scalar disjunct (MultiCVRP: jnp.any(step_count > horizon))
     return [t]
 
